@@ -48,8 +48,12 @@ RMInfo = rmb.RMInfo
 CLASSES = {'FORK': Fork, 'SLURM': Slurm, 'PBSPRO_VNODE': PBSPro, 'PBSPRO_FILE': PBSPro,
            'LSF': LSF, 'COBALT_FILE': Cobalt, 'COBALT_PART': Cobalt, 'TORQUE': Torque, 'CCM': CCM}
 
-FIELDS = ['rm', 'hosts', 'shape', 'pseudo', 'style', 'cores', 'smt', 'known', 'gpn', 'bc', 'bg',
-          'requested', 'slack', 'backup', 'agents', 'service']
+FIELDS = ['rm', 'hosts', 'shape', 'pseudo', 'pslots', 'uneven', 'style', 'cores', 'smt', 'known',
+          'gpn', 'gpusrc', 'bc', 'bg', 'requested', 'slack', 'backup', 'agents', 'service']
+
+# Slurm environment variables that announce the GPUs of a node
+GPU_ENV = {'GPUS_ON_NODE': 'SLURM_GPUS_ON_NODE', 'JOB_GPUS': 'SLURM_JOB_GPUS',
+           'STEP_GPUS': 'SLURM_STEP_GPUS', 'DEVICE_ORDINAL': 'GPU_DEVICE_ORDINAL'}
 
 PSEUDO = {101: 'login1', 102: 'batch2', 103: 'launch3'}
 
@@ -111,12 +115,15 @@ def lines_of(c):
     rm, hs = c['rm'], c['hosts']
     slots  = c['cores'] if rm == 'LSF' else c['cores'] * c['smt']
     pseudo = {'login': [101], 'batch': [102], 'launch': [103], 'both': [101, 102]}.get(c['pseudo'], [])
+    pseudo = [h for h in pseudo for _ in range(c.get('pslots', 1))]
     if c['shape'] == 'slot_adj':
         body = [h for h in hs for _ in range(slots)]
     elif c['shape'] == 'slot_mix':
         body = [h for _ in range(slots) for h in hs]
     else:
         body = list(hs)
+    if c.get('uneven'):
+        body = body[:-1]              # the last host is listed one line short
     return pseudo + body
 
 
@@ -252,6 +259,11 @@ class RMNodesRig(object):
             os.environ['SLURM_JOB_NODELIST' if len(c['hosts']) % 2 else 'SLURM_NODELIST'] = expr
             if not c['known']:
                 os.environ['SLURM_CPUS_ON_NODE'] = str(c['cores'] * c['smt'])
+            src = c.get('gpusrc', 'config')
+            if src == 'GPUS_ON_NODE':
+                os.environ[GPU_ENV[src]] = str(c['gpn'])
+            elif src in GPU_ENV:                  # a list of device ids
+                os.environ[GPU_ENV[src]] = ','.join(str(i) for i in range(c['gpn']))
         elif rm == 'COBALT_PART':
             os.environ['COBALT_PARTNAME'] = ranges(c['hosts'], 1)
         elif rm == 'COBALT_FILE':
@@ -319,7 +331,7 @@ class RMNodesRig(object):
             'gpus'             : (c['requested'] + c['backup']) * ug if known
                                  else c['requested'] * ug,
             'cores_per_node'   : c['cores'] * c['smt'] if known else 0,
-            'gpus_per_node'    : c['gpn'],
+            'gpus_per_node'    : c['gpn'] if c.get('gpusrc', 'config') == 'config' else 0,
             'lfs_size_per_node': 0, 'lfs_path_per_node': '/tmp',
             'agents'           : agents})
         rm._rcfg = ru.Config(from_dict={
@@ -397,9 +409,11 @@ class RMNodesRig(object):
                                  self.log, self.log)
                     info2 = rm2.info
                     events.append({'ev': 'Recreated', 'P': partition(info2), 'fromreg': not calls,
+                                   'cpn': int(info2.cores_per_node), 'gpn': int(info2.gpus_per_node),
                                    'same': bool(info2.as_dict() == d)})
                 except Exception as e:
                     events.append({'ev': 'Recreated', 'P': partition(RMInfo()), 'fromreg': not calls,
+                                   'cpn': 0, 'gpn': 0,
                                    'same': False, 'exc': type(e).__name__})
                 FakeProcess.down = set()
 
